@@ -106,6 +106,13 @@ def audit(pid, module=None):
     return {'theorems': res, 'ok': ok, 'log': log[-3000:]}
 
 
+def leanchecker(module, timeout=1800):
+    t0 = time.time()
+    p = subprocess.run(['lake', 'env', 'leanchecker', module], cwd=LEAN_DIR, stdout=subprocess.PIPE, stderr=subprocess.STDOUT,
+                       text=True, timeout=timeout)
+    return p.returncode == 0, p.stdout, time.time() - t0
+
+
 def run_driver(lines, timeout=1200):
     inp = '\n'.join(lines) + '\n'
     p = subprocess.run([DRIVER], input=inp, stdout=subprocess.PIPE, stderr=subprocess.PIPE, text=True, timeout=timeout)
